@@ -329,6 +329,12 @@ def validate_trace(pid, name, module, trace_path, n_events, constants=None, time
 # driver
 # --------------------------------------------------------------------------
 
+class DriverDied(ToolError):
+    """The driver process was started and did not end with status 0 (killed by a signal, aborted, exit status of a panic,
+    timed out).  Whether that is an observation about the code under test or a failure of the harness is decided by the
+    caller (oneshot._harness_own_failure); a driver that could not be built or started is a plain ToolError."""
+
+
 def run_driver(args, stdin_text=None, timeout=1800, env=None, check=True):
     e = dict(os.environ)
     if env:
@@ -338,9 +344,9 @@ def run_driver(args, stdin_text=None, timeout=1800, env=None, check=True):
         p = subprocess.run([exe] + args, input=stdin_text, stdout=subprocess.PIPE,
                            stderr=subprocess.PIPE, text=True, timeout=timeout, env=e)
     except subprocess.TimeoutExpired:
-        raise ToolError("driver timed out: kdrv " + " ".join(args))
+        raise DriverDied("driver timed out: kdrv " + " ".join(args))
     if check and p.returncode != 0:
-        raise ToolError("driver failed (%s): kdrv %s\n%s" % (p.returncode, " ".join(args), p.stderr[-3000:]))
+        raise DriverDied("driver failed (%s): kdrv %s\n%s" % (p.returncode, " ".join(args), p.stderr[-3000:]))
     return p
 
 
